@@ -3,7 +3,7 @@ import re
 import time
 
 from common import Rule, finish
-from hirtab import ANY, C, L, T, adt_variants, callees, candidates, lit_value
+from hirtab import ANY, C, L, T, adt_variants, callees, callees_inlined, candidates, lit_value
 from hirutil import find, strip, walk
 
 MANDATORY = set(range(0x20)) | {0x22, 0x5C}  # RFC 8259 section 7: control characters, quotation mark, reverse solidus
@@ -258,6 +258,13 @@ def run(facts, tier):
                         if find([a_["body"], a_.get("guard")], lambda n: n.get("k") == "Path" and n["path"].get("id") == sid):
                             uses = True
                     t5.examined((fn["def"].split("::")[-1], name), True, {"fn": fn["def"].split("::")[-1], "format": name, "parser_takes_text": uses, "validated_as_utf8": name in validated})
+                    # a format that is parsed from the bytes must not be read through a UTF-8 validating reader either
+                    arm_calls = []
+                    for i_, kind_ in candidates(mp["arms"], C(f"jaq_fmts::Format::{name}")):
+                        arm_calls += callees_inlined(facts, [mp["arms"][i_]["body"], mp["arms"][i_].get("guard")])
+                    utf8_readers = sorted({c_ for c_ in arm_calls if re.search(r"read_to_string$|str::converts::from_utf8$|String::from_utf8$|::lines$", c_)})
+                    if name not in validated and utf8_readers:
+                        t5.violate(f"reader/{name}", f"format {name} (parsed from the bytes) is read through {utf8_readers} in `{fn['def'].split('::')[-1]}`: input that is not valid UTF-8 is rejected on this path only (standard input and file arguments disagree)", where=fn["sp"])
                     if uses != (name in validated):
                         t5.violate(f"sync/{name}", f"format {name}: " + ("its parser is handed the text but the bytes are not validated as UTF-8" if uses else "the bytes are validated as UTF-8 although its parser reads the bytes themselves: input that standard input and the from* filter accept is rejected for file arguments"), where=bs[0]["sp"])
     rules.append(t5.finish())
